@@ -90,8 +90,13 @@ def run(chk):
         "raising attempt hooks / classifiers / strategies / observability hooks are outside the retry-loop model (Props/C08.v header); "
         "they are injected on the implementation and judged by the property oracle only (coverage.fault_injection_outside_model)",
     ]
-    pc.run_policy_check(chk, "C08", "proj_P09", OPTS)
+    ok = chk.check_theorems()
+    pc.run_policy_check(chk, "C08", "proj_P09", OPTS, theorems_ok=ok)
     fault_part(chk)
+    if ok:
+        import source_tie
+        source_tie.report(chk, source_tie.policy_tie(chk), "policy",
+                          "policy-level call sequences (breaker cycles, every delivery kind of the inner run): no property violation found")
 
 
 def replay(path):
